@@ -12,7 +12,7 @@ META = {
     'technique': 'Lean 4 theorems over executable models of all ten comparator families of /repo/semantic (no crash, reflexivity, exact antisymmetry on ALL strings; '
                  'total preorder on all parsed values or on the stated subset; semver.org §11 agreement) + sharded correspondence of the models with '
                  'semantic.Parse/CompareStr on pairs and triples, with the order laws and the semver.org verdict evaluated on the implementation\'s own answers as oracle',
-    'design_ref': 'DESIGN.md §5 C07',
+    'design_ref': 'DESIGN.md §4 (section of C07), §5 (defects), §7 (seeded changes)',
     'text': 'Kernel-checked, for every family (semver-like, NuGet, CRAN, Debian/Ubuntu, RubyGems, Red Hat, Packagist, PyPI, Alpine, Maven) and ALL strings: Parse+CompareStr never '
             'crashes. What that means: for PyPI, Alpine and Maven the models have explicit crash branches (Alpine original[0], PyPI pre.letter[0], Maven token indexing and trim loop); '
             'for semver-like, NuGet, CRAN, RubyGems, Red Hat, Packagist and Debian the FAMILIES run Go-shaped functions written with failing index/slice primitives (goIndex, goSlice, goFetch; '
